@@ -145,6 +145,12 @@ def replay(behaviour, shorthand=None):
         NOISY = {s: np.round((0.06 * SIG[s] + 4.0 * np.sin(2 * np.pi * 0.4 * np.arange(len(SIG[s])) / FS) + 0.01 * rngn.standard_normal(len(SIG[s]))) * 512) / 512 for s in (1, 2)}
         SHPN = {s: compute_shape_features(NOISY[s].copy(), FS, FR) for s in (1, 2)}        # small rhythm on a large slow wave: inverted flanks (negative volt_rise / volt_decay) occur
         NOB = {s: compute_features(SIG[s].copy(), FS, FR, threshold_kwargs={'amp_fraction_threshold': 1.0, 'min_n_cycles': 3}) for s in (1, 2)}   # no burst at all
+        import project as pj
+        # the user's tables carry their own row labels (a window of a longer table, a late row dropped): labels are the user's too
+        SHP = {s: pj.relabel(t, s) for s, t in SHP.items()}
+        SHPN = {s: pj.relabel(t, s + 1) for s, t in SHPN.items()}
+        NOB = {s: pj.relabel(t, s) for s, t in NOB.items()}
+        TAB = {k: pj.relabel(t, k[0] + (k[1] == 'amp')) for k, t in TAB.items()}
         ARRS = {k: [np.array(t[c].values) for c in ('sample_peak', 'sample_last_trough', 'sample_zerox_rise', 'sample_zerox_decay')] for k, t in TAB.items()}
     # persistent per-signal option lists for the group functions: the OUTER dictionaries and the list are the user's objects too
     centre = {}
@@ -290,7 +296,10 @@ def replay(behaviour, shorthand=None):
                                     arrs = ARRS[(s, m)]
                                     plot_cyclepoints_array(sig, FS, peaks=arrs[0], troughs=arrs[1], rises=arrs[2], decays=arrs[3], xlim=(0.5, 2.0))
                                 elif f == 'plot_burst_detect_param':
-                                    plot_burst_detect_param(tab, sig, FS, 'period_consistency' if m == 'cycles' else 'burst_fraction', 0.5, xlim=(0.5, 2.0))
+                                    if s == 2:
+                                        plot_burst_detect_param(tab, sig, FS, 'period_consistency' if m == 'cycles' else 'burst_fraction', 0.5, interp=False)
+                                    else:
+                                        plot_burst_detect_param(tab, sig, FS, 'period_consistency' if m == 'cycles' else 'burst_fraction', 0.5, xlim=(0.5, 2.0))
                                 elif f == 'plot_feature_hist':
                                     plot_feature_hist(tab, 'period', only_bursts=bool(s == 1), xlim=(0, 200))
                                 else:
